@@ -9,7 +9,7 @@ VARIABLES l, st, tid
 
 StepFails(e, s) ==
   LET x == Expected(s, e.op) IN
-  IF e.op.kind = "ext" THEN {}
+  IF e.op.kind \in External THEN {}
   ELSE (IF e.obs.status = x.status THEN {} ELSE {"StatusAsRegister"})
        \cup (IF x.code = "-" \/ e.obs.status # "error" \/ e.obs.code = x.code THEN {} ELSE {"ErrorCode"})
        \cup (IF e.obs.status = "error" /\ e.obs.changed THEN {"ErrorLeavesFsUnchanged"} ELSE {})
